@@ -279,6 +279,8 @@ class FnTranslator:
                 return "(ECall \"into_option\" [%s])" % self.expr(e[1])
             if self.interior and name in ("map", "collect", "zip") and self.has_zip(e):
                 return self.iter_pipeline(e)
+            if self.interior and name == "collect" and len(e) == 3 and e[1][0] == "mcall" and S(e[1][2]) == "map":
+                return self.expr(e[1])             # the list of a mapped iterator, collected
             if self.interior and name in getattr(self, "symbolic_methods", ()):
                 return "(ECon %s %s)" % (cs("." + name), clist([self.expr(e[1])] + [self.expr(a) for a in e[3:]]))
             if self.interior and name in getattr(self, "accessor_methods", ()) and len(e) == 3:
@@ -877,6 +879,24 @@ def translate_dispatch_leg():
     return out
 
 
+def translate_bridge_logic():
+    """`Interfaces::emit_dispatch_arms` (types/interfaces.rs) and `MsgType::emit_ctx_dispatch_values` (types/msg_type.rs): which
+    arms of the contract-level dispatch convert the response (IntoResponse) and the context (into_empty)."""
+    def setup(t):
+        t.interior = True
+        t.symbolic_methods = {"emit_msg_wrapper_name", "emit_ctx_dispatch_values"}
+    FOREIGN.update({"crate_module": "call:extern::crate_module"})
+    kv = fetch_ast(os.path.join(common.REPO, "sylvia-derive", "src", "types", "interfaces.rs"))
+    known = {"push", "extern::crate_module"}
+    out = translate_methods("types/interfaces.rs", {"Interfaces": ["emit_dispatch_arms"]}, setup=setup, kv=kv, extra_known=known)
+
+    def setup2(t):
+        t.interior = True
+    kv2 = fetch_ast(os.path.join(common.REPO, "sylvia-derive", "src", "types", "msg_type.rs"))
+    out += translate_methods("types/msg_type.rs", {"MsgType": ["emit_ctx_dispatch_values"]}, setup=setup2, kv=kv2, extra_known=known)
+    return out
+
+
 MT_LOGIC_EXTERNS = {"crate_module", "emit_bracketed_generics", "get_ident_from_type"}
 
 
@@ -997,6 +1017,11 @@ def generate():
     except TranslateError as e:
         legs, _ = [], errors.append("macro logic (dispatch legs: msg_variant.rs, msg_type.rs): %s" % e)
 
+    try:
+        bridge = translate_bridge_logic()
+    except TranslateError as e:
+        bridge, _ = [], errors.append("macro logic (bridged arms: interfaces.rs, msg_type.rs): %s" % e)
+
     def prog(fns):
         return "  [ " + ";\n    ".join(fns) + " ]." if fns else "  []."
     text = "\n".join([
@@ -1038,7 +1063,9 @@ def generate():
         "(* which body each operation of the generated `impl cw_multi_test::Contract` gets (contract/mt.rs) *)",
         "Definition mtlogic_fns : program :=", prog(mtlogic), "",
         "(* the match arm of a message variant: MsgVariant::emit_dispatch_leg, MsgType::emit_dispatch_leg *)",
-        "Definition leg_fns : program :=", prog(legs), ""])
+        "Definition leg_fns : program :=", prog(legs), "",
+        "(* the arms of the contract-level dispatch for the interfaces: Interfaces::emit_dispatch_arms, MsgType::emit_ctx_dispatch_values *)",
+        "Definition bridge_fns : program :=", prog(bridge), ""])
     return text, errors
 
 
